@@ -13,6 +13,7 @@
 //!  * `TieredEngine::merge_knn_results` collects candidates in a std `HashMap` and stable-sorts by
 //!    distance only, so the ORDER of equal-distance results (and which of several equal-distance
 //!    candidates survives truncation to k) is not a function of the inputs. The oracle is insensitive to it.
+#![allow(dead_code)] // the public interface is consumed by the driver's other modules
 use kvh::rng::Rng;
 use kyrodb_engine::cache_strategy::LruCacheStrategy;
 use kyrodb_engine::config::DistanceMetric;
@@ -252,7 +253,7 @@ impl StreamOut {
 // reference distances (f64)
 // ------------------------------------------------------------------------------------------------
 
-fn metric_of(m: u8) -> DistanceMetric {
+pub(crate) fn metric_of(m: u8) -> DistanceMetric {
     match m {
         0 => DistanceMetric::Euclidean,
         1 => DistanceMetric::Cosine,
@@ -521,7 +522,7 @@ impl Eng {
     }
 }
 
-fn tiered_config(metric: u8, dim: usize, max_elements: usize, hard_limit: usize) -> TieredEngineConfig {
+pub(crate) fn tiered_config(metric: u8, dim: usize, max_elements: usize, hard_limit: usize) -> TieredEngineConfig {
     TieredEngineConfig {
         hot_tier_max_size: 10_000,
         hot_tier_hard_limit: hard_limit,
@@ -564,7 +565,7 @@ fn build_engine(h: &Header) -> Result<Eng, String> {
     }
 }
 
-fn hot_snapshot(e: &TieredEngine) -> Vec<HotEntry> {
+pub(crate) fn hot_snapshot(e: &TieredEngine) -> Vec<HotEntry> {
     let mut ids = e.hot_tier().snapshot_doc_ids();
     ids.sort_unstable();
     let mut out = vec![];
@@ -1090,11 +1091,20 @@ impl<'a> Exec<'a> {
         if c.target.is_tiered() {
             let hot_d = |h: &HotEntry| refs(c.metric, &c.query_norm, &h.vec).1;
             for h in c.hot.iter().filter(|h| h.fresh) {
-                if !self.shadow.is_live(h.id) || in_res.contains(&h.id) {
+                acc.hist.bump("recent_write_check", "fresh_mirrors_checked");
+                if !self.shadow.is_live(h.id) {
+                    acc.hist.bump("recent_write_check", "fresh_mirror_of_non_live_id");
+                    continue;
+                }
+                if in_res.contains(&h.id) {
+                    acc.hist.bump("recent_write_check", "fresh_mirror_in_results");
                     continue;
                 }
                 let r = rmax(h.id);
                 let missing = rs.len() < c.k || d_last.map(|dl| r < dl - TOL * (1.0 + r)).unwrap_or(true);
+                if !missing {
+                    acc.hist.bump("recent_write_check", "fresh_mirror_legitimately_beyond_k");
+                }
                 if missing {
                     let dh = hot_d(h);
                     let before: Vec<&HotEntry> = c.hot.iter().filter(|o| { let d = hot_d(o); d < dh || (d == dh && o.id < h.id) }).collect();
@@ -1120,6 +1130,8 @@ enum Shape {
     Mixed,
     TombHeavy,
     Compact,
+    /// distinct ids until the index is full of LIVE documents (insert must then fail: no tombstone to reclaim)
+    Full,
 }
 
 struct Gen {
@@ -1233,19 +1245,21 @@ fn plan_history(i: usize, r: &mut Rng) -> (Header, Gen) {
         (r.below(3) as u8, *r.pick(&DIMS))
     };
     let kind = if (i + i / 27) % 2 == 0 { Kind::Backend } else { Kind::Tiered };
-    let shape = match i % 5 {
-        1 => Shape::TombHeavy,
-        3 => Shape::Compact,
+    let shape = match i % 10 {
+        1 | 6 => Shape::TombHeavy,
+        3 | 8 => Shape::Compact,
+        7 => Shape::Full,
         _ => Shape::Mixed,
     };
     let max_elements = match shape {
+        Shape::Full => *r.pick(&[16usize, 24]),
         Shape::TombHeavy => *r.pick(&[16usize, 16, 24, 24, 64]),
         Shape::Compact => *r.pick(&[16usize, 24, 24, 64]),
         Shape::Mixed => *r.pick(&[16usize, 24, 64]),
     };
     let near_unit = metric != 0 && (r.chance(1, 10) || i % 13 == 5);
     let hard_limit = if kind == Kind::Tiered && r.chance(3, 20) { r.range(4, 8) as usize } else { 20_000 };
-    let n_ids = r.range(6, 40) as usize;
+    let n_ids = if shape == Shape::Full { (max_elements + r.range(2, 8) as usize).min(40) } else { r.range(6, 40) as usize };
     let pool = make_pool(r, dim, near_unit);
     let n_init = if kind == Kind::Tiered && r.chance(1, 3) { r.range(1, 4) as usize } else { 0 };
     let init: Vec<Vec<f32>> = (0..n_init).map(|_| r.pick(&pool).clone()).collect();
@@ -1256,6 +1270,7 @@ fn plan_history(i: usize, r: &mut Rng) -> (Header, Gen) {
     let len = match shape {
         Shape::TombHeavy => r.range((max_elements as u64 + 20).min(110), 120) as usize,
         Shape::Compact => r.range(50, 120) as usize,
+        Shape::Full => r.range(max_elements as u64 + 20, 120) as usize,
         Shape::Mixed => r.range(20, 120) as usize,
     };
     let core = r.range(2, 5) as usize;
@@ -1328,6 +1343,7 @@ impl Gen {
             (Shape::TombHeavy, true) => [76, 3, 0, 15, 4, 2],
             (Shape::TombHeavy, false) => [9, 9, 3, 62, 12, 5],
             (Shape::Compact, _) => [58, 6, 1, 28, 5, 2],
+            (Shape::Full, _) => [60, 3, 1, 31, 3, 2],
         };
         if !tiered {
             w[3] += w[4] + w[5];
@@ -1345,9 +1361,12 @@ impl Gen {
         }
         match class {
             0 => {
-                let over = match self.shape { Shape::Mixed => 65, Shape::TombHeavy => 50, Shape::Compact => 85 };
+                let over = match self.shape { Shape::Mixed => 65, Shape::TombHeavy => 50, Shape::Compact => 85, Shape::Full => 10 };
+                let fresh_ids: Vec<u64> = if self.shape == Shape::Full { self.ids.iter().copied().filter(|i| !live.contains(i)).collect() } else { vec![] };
                 let id = if self.shape == Shape::TombHeavy && (filling || self.rng.chance(1, 2)) {
                     self.ids[self.rng.below(self.core as u64) as usize]
+                } else if !fresh_ids.is_empty() && self.rng.chance(9, 10) {
+                    *self.rng.pick(&fresh_ids)
                 } else if !live.is_empty() && self.rng.chance(over, 100) {
                     *self.rng.pick(&live)
                 } else {
@@ -1401,7 +1420,11 @@ impl Gen {
                 }
                 let k = self.pick_k(live.len());
                 let nq = if target.is_batch() { self.rng.range(2, 4) as usize } else { 1 };
-                let queries: Vec<Vec<f32>> = (0..nq).map(|_| self.query(ex)).collect();
+                let mut queries: Vec<Vec<f32>> = (0..nq).map(|_| self.query(ex)).collect();
+                if no_ef && self.rng.chance(35, 100) {
+                    // the same request twice in a row: the second call can be served by the query cache
+                    queries.push(queries[0].clone());
+                }
                 if no_ef {
                     self.recent.push((queries[0].clone(), k));
                     if self.recent.len() > 6 {
@@ -1461,6 +1484,27 @@ fn end_history(ex: &Exec, acc: &mut Acc) {
         acc.hist.add("engine_stats", "total_queries", s.total_queries);
         acc.hist.add("engine_stats", "total_inserts", s.total_inserts);
     }
+}
+
+/// Re-generates history `index` of the run seeded by `seed_rng` (same state as given to `run`) and
+/// returns `{"ops_prefix": <full replayable history>}` (accepted by `run(.., Some(&v))`).
+pub fn dump_history(seed_rng: &mut Rng, index: usize) -> Value {
+    let rt = tokio::runtime::Builder::new_current_thread().enable_time().build().expect("tokio runtime");
+    let mut acc = Acc { cases: vec![], failures: vec![], hist: Hist::default(), gap_max: 0.0 };
+    for j in 0..index {
+        let _ = seed_rng.fork(j as u64);
+    }
+    let mut r = seed_rng.fork(index as u64);
+    let (hdr, mut gen) = plan_history(index, &mut r);
+    let mut ex = Exec::new(hdr, &rt).expect("engine construction");
+    for step in 0..gen.len {
+        let op = gen.next(&ex);
+        ex.apply(step, &op, &mut acc);
+        if ex.dead {
+            break;
+        }
+    }
+    json!({"ops_prefix": ex.prefix_json(), "cases": acc.cases.len(), "failures": acc.failures.len()})
 }
 
 pub fn run(seed_rng: &mut Rng, n_histories: usize, replay: Option<&Value>) -> StreamOut {
